@@ -156,7 +156,7 @@ pub fn train_case(c: &TrCase) -> Trained {
         }
     }
     out.examples = examples_text(&trainer.verif_examples());
-    let r = crate::util::silence_stdout(|| catch(|| trainer.train(0.01, 1.0, solver_of(c.solver))));
+    let r = silence_stdout(|| catch(|| trainer.train(0.01, 1.0, solver_of(c.solver))));
     out.trace_items = take_trace();
     match r {
         Ok(Ok(m)) => {
@@ -392,5 +392,27 @@ fn oracle_c11(c: &TrCase, bytes: &[u8], fails: &mut Vec<(String, String)>) {
         if let Some(w) = ws.iter().find(|w| !(-32767..=32767).contains(*w)) {
             fails.push(("C11".into(), format!("the trained model contains the weight {w}, outside the signed 16-bit range")));
         }
+    }
+}
+
+/// runs `f` with file descriptor 1 redirected to /dev/null (liblinear prints its progress with C stdio)
+pub fn silence_stdout<T>(f: impl FnOnce() -> T) -> T {
+    use std::io::Write;
+    let _ = std::io::stdout().flush();
+    unsafe {
+        libc::fflush(std::ptr::null_mut());
+        let saved = libc::dup(1);
+        let saved2 = libc::dup(2);
+        let null = libc::open(c"/dev/null".as_ptr(), libc::O_WRONLY);
+        libc::dup2(null, 1);
+        libc::dup2(null, 2);
+        libc::close(null);
+        let r = f();
+        libc::fflush(std::ptr::null_mut());
+        libc::dup2(saved, 1);
+        libc::dup2(saved2, 2);
+        libc::close(saved);
+        libc::close(saved2);
+        r
     }
 }
